@@ -134,6 +134,21 @@ PROPS = {
         "real_vs_stub": REAL_TXN + "; also real: tikv/gc.go, txnkv/rangetask, tikv/safepoint.go cache",
         "assumptions": ["backend M (mocktikv)", "populations are small (<= 6 keys): 'any number of locks per region relative to the scan limit' is explored through small limits"],
     },
+    "C20": {
+        "engine": "backoffsim",
+        "level_text": "the real retry.Backoffer runs on the simulated clock; generated programs (back-offs over own and exported kinds with per-call maxima, budgets 0..700 s, weights 1-3, clone / fork groups in the library's three usage shapes on concurrent goroutines / merge / reset) with a canceller and a killer acting at seed-chosen instants incl. mid-sleep; a shadow model of what every lineage really slept judges every call: budget plus one step, excluded-kind limit, per-call maximum and cap, exhaustion error kind, cancellation and kill behaviour, fork/clone start and merge accounting; tiny programs are enumerated completely up to length 3 (quick) / 4 (thorough)",
+        "level_note": "trusted: the shadow model (sim/engines/backoffsim/CHECK.md lists every demand and the reading chosen where the sentence is open: budget 0 = unlimited, a kill is only observed after the running sleep, fork merges follow the library's usage discipline)",
+        "level": "exploration",
+        "modes": [
+            {"mode": "forks", "quick": {"runs": 20000}, "thorough": {"runs": 400000}},
+            {"mode": "seq", "quick": {"runs": 32000}, "thorough": {"runs": 400000}},
+        ],
+        "rule": ("mode seq: one goroutine (every 2nd run from the complete enumeration of tiny programs over a 10-step alphabet x 12 budget/weight combinations, the others seeded samples); "
+                 "mode forks: plus concurrent fork groups, cancellation of fork contexts, merges; non-trivial = at least two calls really slept and (forks) a group with >= 2 concurrent members ran; "
+                 "distinct = canonical traces of all calls with instants, slept time, error class, counters"),
+        "real_vs_stub": "real code: config/retry (Backoffer, Config, back-off functions), kv.Variables; nothing stubbed except the clock (testing/synctest) and math/rand seeding",
+        "assumptions": ["limits and caps are read from the library's objects through a read-only export shim, never copied"],
+    },
     "C06": {
         "engine": "txnsim",
         "level_text": "contending transactions with failing LockKeys steps under region errors and topology changes but no message loss; TTLs are set so that nothing can expire; once the clients' background work has drained the store is scanned for locks of ended transactions",
@@ -163,5 +178,8 @@ ENGINES = [
 
 ENGINES.append({"name": "mvccdiff", "path": "sim/engines/mvccdiff", "serves_properties": ["C12"],
                 "kind_free_text": "differential execution of the mock store against the reference MVCC model under a simulated lossy/reordering/duplicating delivery of protocol commands"})
+
+ENGINES.append({"name": "backoffsim", "path": "sim/engines/backoffsim", "serves_properties": ["C20"],
+                "kind_free_text": "the real Backoffer on the simulated clock with concurrent forks, seeded cancellation / kill instants and a shadow accounting model"})
 
 HOOK_COMMITS = []
